@@ -296,8 +296,13 @@ def extrema_rule(ctx, p):
             res = lambda nm: (lambda r: None if r is nm else r)(wire.resolve_local(f, nm, depth=1))
             o = wire.resolve_local(f, o) if o is not None else None
             ps = wire.resolve_local(f, ps) if ps is not None else None
+            # (every temporary, unpacked tuple and new helper between the extrema and the origin is read through)
+            if o is not None and not isinstance(o, ast.Tuple):
+                o = wire.inline_locals(f, o, unpack=True)
             if not isinstance(o, ast.Tuple) or len(o.elts) != 2:
                 continue
+            o = wire.inline_locals(f, o, unpack=True)
+            ps = wire.inline_locals(f, ps, unpack=True) if ps is not None else None
             polys = [expr_poly(e, res) for e in o.elts]
             ext = {a for pl in polys for a in pl.all_atoms() if _EXT.match(a)}
             if not ext:
